@@ -331,13 +331,15 @@ def directed(run):
         add("params%s" % (ps,), store_kind="ref", user={"script": [USER_OK] * 2},
             ops=[reg_op(rng, params=ps), reg_op(rng, params=ps, origin="https://other.org", rp_id=None)])
     # the same user id registered at several RPs into one store: every success adds exactly one credential and leaves the others
-    for kind in ("memory", "ref", "arc_mutex_memory", "arc_rwlock_memory"):
+    for kind in ("memory", "ref", "arc_mutex_memory", "arc_rwlock_memory", "option"):
         uid = b"\x42" * 8
-        add("same-user-id/%s" % kind, store_kind=kind, user={"script": [USER_OK] * 4},
-            ops=[reg_op(rng, origin="https://www.example.com", rp_id="example.com", user_id=uid),
-                 reg_op(rng, origin="https://shop.other.org", rp_id=None, user_id=uid),
-                 reg_op(rng, origin="https://login.example.com", rp_id="login.example.com", user_id=uid),
-                 reg_op(rng, origin="https://www.example.com", rp_id="example.com", user_id=uid)])
+        for sel in (None, {"rk": "required", "require_rk": True, "uv": "preferred"}):      # without / with a stored user handle
+            add("same-user-id/%s/%s" % (kind, sel is not None), store_kind=kind, user={"script": [USER_OK] * 5},
+                ops=[reg_op(rng, origin="https://www.example.com", rp_id="example.com", user_id=uid, selection=sel),
+                     reg_op(rng, origin="https://www.example.com", rp_id="example.com", user_id=uid, selection=sel),      # the same account again
+                     reg_op(rng, origin="https://shop.other.org", rp_id=None, user_id=uid, selection=sel),
+                     reg_op(rng, origin="https://login.example.com", rp_id="login.example.com", user_id=uid, selection=sel),
+                     reg_op(rng, origin="https://www.example.com", rp_id="example.com", user_id=uid, selection=sel)])
     # entries whose `type` is not "public-key" (the library looks at `alg` only): a non-empty list stays non-empty -
     # no silent fall-back to the defaults - whatever the types are
     for ps, tys in [((-257,), (False,)), ((-257, -8), (False, False)), ((-7,), (False,)), ((-257, -7), (False, True)), ((-257, -7), (True, False)),
